@@ -677,4 +677,87 @@ theorem lt_irrefl_asymm (a b : Val) :
     case right.float.dec f q => cases f <;> simp [Ext.ofFlt, Ext.lt] <;> (try exact qas _ _)
     case right.dec.float q f => cases f <;> simp [Ext.ofFlt, Ext.lt] <;> (try exact qas _ _)
 
+
+/-! ## Deepening round: the Pratt parser satisfies the stratified grammar's defining equations, for all token lists
+
+The recursive-descent oracle of the harness implements
+`L1 := L5 ((and|or) L1)? ; L5 := L6 (relop L5)? ; L6 := prefix (contains L6)? ; prefix := operand | ( L1 ) | not L1`.
+The four theorems below say that `parse_boolean_primitive` at the precedences 1/2, 5, 6 and 7 satisfies exactly
+these equations (`levelStep` = "at most one operator of this level, right operand at this level again"), for every
+token list, well-formed or not.  Since every right-hand side calls the parser on a strictly shorter list or at the
+next level, the equations determine the function: this is the equivalence with the grammar, short of packaging it
+as one equality with a separately defined grammar function. -/
+
+private theorem hS_tac (q hi lv : Nat) (h : ∀ o : Op, isBin (.op o) = true → stops (.op o) hi = true →
+    stops (.op o) q = false → prec (.op o) = lv) :
+    ∀ t, isBin t = true → stops t hi = true → stops t q = false → prec t = lv := by
+  intro t hb
+  cases t with
+  | op o => exact h o hb
+  | atom n => simp [isBin] at hb
+  | not => exact absurd hb (by decide)
+  | lp => exact absurd hb (by decide)
+  | rp => exact absurd hb (by decide)
+  | junk => simp [isBin] at hb
+
+private theorem hstop_tac (q lv : Nat) (h : ∀ o : Op, stops (.op o) lv = true → stops (.op o) q = true) :
+    ∀ t, stops t lv = true → stops t q = true ∨ isBin t = false := by
+  intro t hs
+  cases t with
+  | op o => exact Or.inl (h o hs)
+  | atom n => exact Or.inr rfl
+  | not => exact Or.inr (by decide)
+  | lp => exact Or.inr (by decide)
+  | rp => exact Or.inr (by decide)
+  | junk => exact Or.inr rfl
+
+/-- `L1 := L5 ((and|or) L1)?` — a whole condition (precedence 1) and the right-hand side of `and`/`or`
+    (precedence 2) alike. -/
+theorem grammar_level_logical (fl : Flags) (ts : List Tok) :
+    parsePrim fl C12Tables.topPrec ts
+      = (parsePrim fl (prec (.op .eq)) ts).bind (levelStep fl C12Tables.topPrec (prec (.op .and))) ∧
+    parsePrim fl (prec (.op .and)) ts
+      = (parsePrim fl (prec (.op .eq)) ts).bind (levelStep fl (prec (.op .and)) (prec (.op .and))) := by
+  constructor
+  · exact level_eq fl _ _ _ (by decide) (hS_tac _ _ _ (by intro o; cases o <;> decide))
+      (hstop_tac _ _ (by intro o; cases o <;> decide)) ts
+  · exact level_eq fl _ _ _ (by decide) (hS_tac _ _ _ (by intro o; cases o <;> decide))
+      (hstop_tac _ _ (by intro o; cases o <;> decide)) ts
+
+/-- `L5 := L6 (relop L5)?` -/
+theorem grammar_level_relational (fl : Flags) (ts : List Tok) :
+    parsePrim fl (prec (.op .eq)) ts
+      = (parsePrim fl (prec (.op .contains)) ts).bind (levelStep fl (prec (.op .eq)) (prec (.op .eq))) :=
+  level_eq fl _ _ _ (by decide) (hS_tac _ _ _ (by intro o; cases o <;> decide))
+    (hstop_tac _ _ (by intro o; cases o <;> decide)) ts
+
+/-- `L6 := prefix (contains L6)?` -/
+theorem grammar_level_contains (fl : Flags) (ts : List Tok) :
+    parsePrim fl (prec (.op .contains)) ts
+      = (parsePrim fl (prec .not) ts).bind (levelStep fl (prec (.op .contains)) (prec (.op .contains))) :=
+  level_eq fl _ _ _ (by decide) (hS_tac _ _ _ (by intro o; cases o <;> decide))
+    (hstop_tac _ _ (by intro o; cases o <;> decide)) ts
+
+/-- `prefix := operand | ( L1 ) | not L1` — at the highest precedence nothing is appended to the prefix. -/
+theorem grammar_prefix (fl : Flags) (r : List Tok) :
+    (∀ n, parsePrim fl (prec .not) (.atom n :: r) = some (.atom n, r)) ∧
+    (fl.allowParens = true → ∀ e r', parsePrim fl C12Tables.topPrec r = some (e, .rp :: r') →
+        parsePrim fl (prec .not) (.lp :: r) = some (e, r')) ∧
+    (fl.allowNot = true → ∀ e r', parsePrim fl C12Tables.topPrec r = some (e, r') →
+        parsePrim fl (prec .not) (.not :: r) = some (.not e, r')) := by
+  have top : ∀ l ts, loop fl (prec .not) l ts = some (l, ts) := by
+    intro l ts
+    cases ts with
+    | nil => exact loop_nil ..
+    | cons t rest =>
+      apply loop_stop
+      cases t with
+      | op o => left; cases o <;> decide
+      | atom n => right; rfl
+      | junk => right; rfl
+      | _ => right; decide
+  refine ⟨fun n => by rw [parsePrim_atom]; exact top _ _, fun ha e r' h => ?_, fun ha e r' h => ?_⟩
+  · rw [parsePrim_group fl _ r r' e ha (by rw [show C12Tables.groupPrec = C12Tables.topPrec from by decide]; exact h)]; exact top _ _
+  · rw [parsePrim_not fl _ r r' e ha (by rw [show C12Tables.notOperandPrec = C12Tables.topPrec from by decide]; exact h)]; exact top _ _
+
 end LiquidVerif.C12
